@@ -323,7 +323,7 @@ func (w *c04World) payOnce(owner chain.Account, size, maxProofs, expires int64) 
 
 func TestC04(t *testing.T) {
 	rec := ev.For("C04")
-	rec.Describe("fork-mode histories of 1-5 payments (BuyStorage and pay-once PostFile) under generated parameters: PolRatio/ReferralCommission with sum <= 100 (incl. PolRatio < 10), PricePerTbPerMonth 0..500, price feed absent / valid / malformed / zero / negative, payer balances 0..1e15, Bytes below 1 GB up to 50,000 GB (tier boundaries), durations around 29/30/365/366/3650 days and wrapping values, ForAddress self/other, Referral none/self/other address/never-used address/registered name/unknown/junk, plan states none/active/expired from earlier purchases at earlier block times. Full balance snapshot (all accounts, all denoms), supply and gauge records before/after every message. Non-trivial = a successful referred purchase; distinct = distinct traces.",
+	rec.Describe("fork-mode histories of 1-5 payments (BuyStorage and pay-once PostFile) under generated parameters: PolRatio/ReferralCommission with sum <= 100 (incl. PolRatio < 10), PricePerTbPerMonth 0..500, price feed absent / valid / malformed / zero / negative, payer balances 0..1e15, Bytes below 1 GB up to 50,000 GB (tier boundaries), durations around 29/30/365/366/3650 days and wrapping values, ForAddress self/other, Referral none/self/other address/never-used address/module accounts (which the bank refuses to credit)/registered name/unknown/junk, plan states none/active/expired from earlier purchases at earlier block times. Full balance snapshot (all accounts, all denoms), supply and gauge records before/after every message. Non-trivial = a successful referred purchase; distinct = distinct traces.",
 		"the price is taken from the chain's exported GetStorageCost/GetStorageCostKbs (the property says 'the price the chain computes'); upgrade proration and the 5%/10% referral discount are recomputed independently",
 		"coin amounts <= 1e15")
 	c := chain.New(chain.GenesisOpts{NumAccounts: 6, Balance: sdk.NewCoins(sdk.NewInt64Coin("ujkl", 1_000_000_000_000_000)),
@@ -437,6 +437,7 @@ func TestC04(t *testing.T) {
 			m.DurationDays = rapid.SampledFrom([]int64{1, 29, 30, 30, 31, 60, 365, 366, 730, 3650, 106751, 106752, 9223372036854775807 / 24}).Draw(rt, "days")
 			m.Bytes = rapid.SampledFrom([]int64{999_999_999, 1_000_000_000, 3_000_000_000, 1_000_000_000_000, 3_000_000_000_000, 4_999_000_000_000, 5_000_000_000_000, 19_999_000_000_000, 20_000_000_000_000, 50_000_000_000_000}).Draw(rt, "bytes")
 			refs := []string{"", "", creator.Bech, chain.Acc(2).Bech, chain.Acc(2).Bech, chain.Acc(4).Bech, "refer2.jkl", "refer2.jkl", "refer0.jkl", "REFER0.jkl", "unknown.jkl", "junk", polAddr, feeCollectorAddr,
+				moduleAddr(rapid.SampledFrom([]string{"storage", "rns", "jklmint", "distribution", "gov", "bonded_tokens_pool", "collateral"}).Draw(rt, "moduleReferrer")), // accounts the bank refuses to credit
 				strings.ToUpper(creator.Bech), strings.ToUpper(chain.Acc(2).Bech), // all-upper-case bech32 is a valid spelling of the same account
 				chain.Acc(700 + rapid.IntRange(0, 40).Draw(rt, "freshReferrer")).Bech} // a valid address that has never been used on chain (no account record yet)
 			m.Referral = rapid.SampledFrom(refs).Draw(rt, "referral")
